@@ -24,7 +24,9 @@ type LogRecord struct {
 	Text  string
 }
 
-func (r LogRecord) String() string { return fmt.Sprintf("%s %q %s: %s", r.Level, r.Msg, r.Code, r.Text) }
+func (r LogRecord) String() string {
+	return fmt.Sprintf("%s %q %s: %s", r.Level, r.Msg, r.Code, r.Text)
+}
 
 // RecLogger implements logging.Logger; it records error-level records.
 type RecLogger struct {
@@ -47,22 +49,26 @@ func (l *RecLogger) add(level, msg string, st status.Status) {
 	l.mu.Unlock()
 }
 
-func (l *RecLogger) Logger(name string) logging.Logger         { return l }
-func (l *RecLogger) WithFields(kv ...any) logging.Logger       { return l }
-func (l *RecLogger) Enabled(level logging.Level) bool          { return true }
-func (l *RecLogger) ErrorOn() bool                             { return true }
-func (l *RecLogger) DebugOn() bool                             { return false }
-func (l *RecLogger) TraceOn() bool                             { return false }
-func (l *RecLogger) Error(msg string, kv ...any)               { l.add("error", msg, status.Status{Message: fmt.Sprint(kv...)}) }
+func (l *RecLogger) Logger(name string) logging.Logger   { return l }
+func (l *RecLogger) WithFields(kv ...any) logging.Logger { return l }
+func (l *RecLogger) Enabled(level logging.Level) bool    { return true }
+func (l *RecLogger) ErrorOn() bool                       { return true }
+func (l *RecLogger) DebugOn() bool                       { return false }
+func (l *RecLogger) TraceOn() bool                       { return false }
+func (l *RecLogger) Error(msg string, kv ...any) {
+	l.add("error", msg, status.Status{Message: fmt.Sprint(kv...)})
+}
 func (l *RecLogger) ErrorStatus(msg string, st status.Status, kv ...any) { l.add("error", msg, st) }
-func (l *RecLogger) Fatal(msg string, kv ...any)               { l.add("fatal", msg, status.Status{Message: fmt.Sprint(kv...)}) }
+func (l *RecLogger) Fatal(msg string, kv ...any) {
+	l.add("fatal", msg, status.Status{Message: fmt.Sprint(kv...)})
+}
 func (l *RecLogger) FatalStatus(msg string, st status.Status, kv ...any) { l.add("fatal", msg, st) }
-func (l *RecLogger) Warn(msg string, kv ...any)                {}
-func (l *RecLogger) WarnStatus(msg string, st status.Status, kv ...any) {}
-func (l *RecLogger) Notice(msg string, kv ...any)              {}
-func (l *RecLogger) Info(msg string, kv ...any)                {}
-func (l *RecLogger) Debug(msg string, kv ...any)               {}
-func (l *RecLogger) Trace(msg string, kv ...any)               {}
+func (l *RecLogger) Warn(msg string, kv ...any)                          {}
+func (l *RecLogger) WarnStatus(msg string, st status.Status, kv ...any)  {}
+func (l *RecLogger) Notice(msg string, kv ...any)                        {}
+func (l *RecLogger) Info(msg string, kv ...any)                          {}
+func (l *RecLogger) Debug(msg string, kv ...any)                         {}
+func (l *RecLogger) Trace(msg string, kv ...any)                         {}
 
 // Records returns a copy of the recorded entries.
 func (l *RecLogger) Records() []LogRecord {
